@@ -9,12 +9,12 @@ from harness import pipeline, trees, mapcheck
 
 
 def run_once(ctx, sc, tag, *, query=None, cell_ids=None, genes=None, encoding='dense', tree_data=None,
-             markers=None, normalization='log2CPM', **var):
+             markers=None, normalization='log2CPM', h5_chunks=None, **var):
     d = ctx.scratch / tag
     d.mkdir()
     pipeline.write_stats(d / 'stats.h5', sc, tree_data=tree_data)
     pipeline.write_markers(d / 'markers.json', sc, markers=markers)
-    pipeline.write_query(d / 'query.h5ad', sc, encoding=encoding, query=query, cell_ids=cell_ids, genes=genes)
+    pipeline.write_query(d / 'query.h5ad', sc, encoding=encoding, query=query, cell_ids=cell_ids, genes=genes, chunks=h5_chunks)
     cfg = pipeline.config_for(d, d / 'query.h5ad', d / 'stats.h5', d / 'markers.json', normalization=normalization, **var)
     res = pipeline.run_mapping(cfg, trace_dir=None)
     shutil.rmtree(d, ignore_errors=True)
